@@ -78,6 +78,17 @@ HasChoice(c, i) ==
     [] nd.k \in {"t", "nil", "hl"} -> FALSE
     [] OTHER -> \E j \in 1..Len(nd.c) : HasChoice(c, nd.c[j])
 
+RECURSIVE Hoists(_, _)
+\* the document is (after the engine's normalisation, which hoists always_break
+\* through concat / nest / group / evaluated align, and marks a fill that has an
+\* always_break item) a forced-break document
+Hoists(c, i) ==
+  LET nd == Nd(c, i) IN
+  CASE nd.k = "ab" -> TRUE
+    [] nd.k \in {"cat", "nest", "grp", "align"} -> \E j \in 1..Len(nd.c) : Hoists(c, nd.c[j])
+    [] nd.k = "fill" -> \E j \in 1..Len(nd.c) : Nd(c, nd.c[j]).k = "ab"
+    [] OTHER -> FALSE
+
 -----------------------------------------------------------------------------
 (* reading the observed line (C05): rendered end column of the line that    *)
 (* contains position p, given that col columns are already on it.  The      *)
@@ -114,7 +125,9 @@ Fits(c, smart, W, mn, left, col, st) ==
           LET nd == Nd(c, top[3])
               kids(mm, ii, from) ==
                 [j \in 1..(Len(nd.c) + 1 - from) |-> <<ii, mm, nd.c[Len(nd.c) + 1 - j], 1>>]
-          IN CASE nd.k = "nil" -> Fits(c, smart, W, mn, left, col, rest)
+          IN \* "a forced-break document starts later on that same line"
+             IF Hoists(c, top[3]) THEN FALSE ELSE
+             CASE nd.k = "nil" -> Fits(c, smart, W, mn, left, col, rest)
                [] nd.k = "t" -> Fits(c, smart, W, mn, left - nd.n, col + nd.n, rest)
                [] nd.k \in {"cat", "ann"} -> Fits(c, smart, W, mn, left, col, rest \o kids(m, ind, 1))
                [] nd.k = "fill" -> Fits(c, smart, W, mn, left, col, rest \o kids(m, ind, top[4]))
